@@ -356,7 +356,9 @@ def c16(req, out):
             for k in (2, 3, 5, 17):
                 lo, up = boxes(N)[0]
                 p = RecProblem(N, lo, up, kind, fail_at=k, exc=exc)
-                s = Solver(p, SolverParameters(r=2.5, eps=1e-6, itersLimit=200))
+                # every documented parameter is exercised: half of the runs are given a start point
+                sp = Point(np.array([lo[j] + 0.3137 * (up[j] - lo[j]) for j in range(N)], dtype=np.double), []) if k % 2 == 0 else []
+                s = Solver(p, SolverParameters(r=2.5, eps=1e-6, itersLimit=200, startPoint=sp))
                 try:
                     sol, txt = quiet(s.Solve)
                 except BaseException as e:
@@ -512,6 +514,21 @@ def c05(req, out):
             if not all(float(lo[j]) <= pt[j] <= float(up[j]) for j in range(N)):
                 out.append(dict(what="returned point outside the box (integer-typed bounds)", point=pt))
                 return n
+    # boxes with a pinned coordinate (lower == upper: the usual way to freeze a parameter), objective not minimal there
+    for N, lo, up, kind in ((2, [0.0, 0.5], [1.0, 0.5], 1), (3, [-1.0, 2.0, 0.0], [1.0, 2.0, 3.0], 7), (2, [0.25, -1.0], [0.25, 2.0], 1)):
+        p = RecProblem(N, lo, up, kind)
+        s = Solver(p, SolverParameters(r=2.5, eps=0.05, itersLimit=60, refineSolution=True))
+        sol, _ = quiet(s.Solve)
+        n += 1
+        for y, v in p.log:
+            if not all(float(lo[j]) - 1e-12 <= y[j] <= float(up[j]) + 1e-12 for j in range(N)):
+                out.append(dict(what="objective evaluated outside a box with a pinned coordinate", point=list(y), lower=lo, upper=up,
+                                N=N, kind=kind))
+                return n
+        pt = [float(t) for t in sol.bestTrials[0].point.floatVariables]
+        if not all(float(lo[j]) <= pt[j] <= float(up[j]) for j in range(N)):
+            out.append(dict(what="returned point outside a box with a pinned coordinate", point=pt, lower=lo, upper=up))
+            return n
     # anytime use: a few global iterations, a short refinement, repeated (the incumbent may move to another basin in between)
     for N in (1, 2):
         p = RecProblem(N, [0.0] * N, [1.0] * N, 8)
